@@ -92,7 +92,7 @@ CLAIMED = {
              "does not itself overwrite the data (ECU frame invariants + induction over the history). The model client keeps nothing between calls; that the real client keeps nothing either "
              "is decided by the history correspondence: random long histories over one long-lived real client (configuration changes, reused and re-pointed MemoryLocation objects, failing calls) "
              "whose every frame goes to the Lean ECU, against the same calls through the Lean client model with its own ECU copy, compared per call and on the final ECU state, plus a Python shadow "
-             "store as P_spec on the implementation. Partial: user codecs are identity on raw bytes; upload is modelled in the ECU but has no theorem.",
+             "store as P_spec on the implementation. Upload: request_upload + enough pulls returns exactly the stored bytes. Partial: user codecs are identity on raw bytes.",
         design_ref='DESIGN.md §3 C12',
         technique='Lean 4 proof (refinement to a reference ECU: round-trip theorems for all states, induction over block lists and call histories) + history differential suite with the Lean ECU in the loop',
         note=NOTE + ' Known finding: identifier 0x0000 through the default codec with an all-zero value under zero-padding tolerance (excluded point of the theorem, proved to fail in the model, reproduced on the code).'),
